@@ -164,6 +164,18 @@ def run_al(case, tid):
     x0 = np.array(case["x0"], dtype=float)
     raised = None
     xr = None
+    if case.get("carry"):
+        # warm re-solve: converge once, then re-solve from a perturbed point with the multipliers and penalties carried over
+        with Silence():
+            try:
+                obj.update_precond(x0)
+                x1 = AlSolver.augmented_lagrange_solve(obj, x0, obj.p, AlSolver.get_settings(tol=1e-9), subS, useWarmStart=False,
+                                                       updatePrecond=False)
+                x0 = np.array(x1) + np.array(case["carry"])
+            except Exception:
+                pass
+        ev.clear()
+        state["kprev"] = onp.asarray(obj.kappa).copy()
     with Silence():
         try:
             obj.update_precond(x0)
@@ -297,7 +309,7 @@ def build_cases(rep, tier, rng):
             cases.append(dict(mode="scripted", prob=prob, kappa0=KAPPAS[2][(i + r) % 2],
                               lam0=[rng.choice([0.0, rng.uniform(0, 2)]) for _ in range(2)],
                               x0=[rng.uniform(-2, 2) for _ in range(N)], al=AL_VECTORS[(i + r) % 4], script=sc))
-    ngen = 60 if tier == "quick" else 1200
+    ngen = 45 if tier == "quick" else 1200
     for i in range(ngen):
         m = [2, 4][i % 2]
         kind = ["active", "weak", "redundant", "nonlinear"][(i // 2) % 4]
@@ -305,6 +317,21 @@ def build_cases(rep, tier, rng):
         c = dict(mode="genuine", prob=prob, kappa0=KAPPAS[m][(i // 8) % 2],
                  lam0=[rng.choice([0.0, rng.uniform(0, 2)]) for _ in range(m)],
                  x0=[rng.uniform(-2, 2) for _ in range(N)], al=AL_VECTORS[(i // 3) % len(AL_VECTORS)], script=None)
+        if kind != "nonlinear":
+            ref = qp_reference(prob)
+            c["ref"] = None if ref is None else ref.tolist()
+        cases.append(c)
+    # warm re-solves with carried multipliers / penalties at several tolerances, and sub-solver tolerance != AL tolerance
+    for i in range(9 if tier == "quick" else 200):
+        m = [2, 4][i % 2]
+        kind = ["active", "nonlinear", "weak"][i % 3]
+        prob = random_problem(rng, m, kind)
+        tol = [1e-6, 1e-7, 1e-8][i % 3]
+        c = dict(mode="resolve", prob=prob, kappa0=KAPPAS[m][0], lam0=[0.0] * m, x0=[rng.uniform(-1, 1) for _ in range(N)],
+                 al=dict(tol=tol), script=None, carry=[rng.uniform(-1e-3, 1e-3) for _ in range(N)])
+        if i % 4 == 3:
+            c["sub"] = dict(tol=1e-6)
+            c["al"] = dict(tol=1e-8, max_al_iters=25)
         if kind != "nonlinear":
             ref = qp_reference(prob)
             c["ref"] = None if ref is None else ref.tolist()
